@@ -292,15 +292,34 @@ func (c *DefaultCtx) tryDecodeBodyInOrder(
 
 	for index, encoding := range encodings {
 		decodesRealized++
+		// The first coding is undone on the request body, every further one on the result of
+		// the previous step. The request's own body is never replaced: that would hand its
+		// buffer back to fasthttp's pool (ReduceMemoryUsage) while BodyRaw() views of it exist.
 		switch encoding {
 		case StrGzip:
-			body, err = c.fasthttp.Request.BodyGunzip()
+			if index == 0 {
+				body, err = c.fasthttp.Request.BodyGunzip()
+			} else {
+				body, err = fasthttp.AppendGunzipBytes(nil, body)
+			}
 		case StrBr, StrBrotli:
-			body, err = c.fasthttp.Request.BodyUnbrotli()
+			if index == 0 {
+				body, err = c.fasthttp.Request.BodyUnbrotli()
+			} else {
+				body, err = fasthttp.AppendUnbrotliBytes(nil, body)
+			}
 		case StrDeflate:
-			body, err = c.fasthttp.Request.BodyInflate()
+			if index == 0 {
+				body, err = c.fasthttp.Request.BodyInflate()
+			} else {
+				body, err = fasthttp.AppendInflateBytes(nil, body)
+			}
 		case StrZstd:
-			body, err = c.fasthttp.Request.BodyUnzstd()
+			if index == 0 {
+				body, err = c.fasthttp.Request.BodyUnzstd()
+			} else {
+				body, err = fasthttp.AppendUnzstdBytes(nil, body)
+			}
 		default:
 			decodesRealized--
 			if len(encodings) == 1 {
@@ -311,16 +330,6 @@ func (c *DefaultCtx) tryDecodeBodyInOrder(
 
 		if err != nil {
 			return nil, decodesRealized, err
-		}
-
-		// Only execute body raw update if it has a next iteration to try to decode
-		if index < len(encodings)-1 && decodesRealized > 0 {
-			if index == 0 {
-				tempBody := c.fasthttp.Request.Body()
-				*originalBody = make([]byte, len(tempBody))
-				copy(*originalBody, tempBody)
-			}
-			c.fasthttp.Request.SetBodyRaw(body)
 		}
 	}
 
